@@ -1,7 +1,8 @@
 (* C07 model: the int/float kernels of pkg/bifs/arithmetic.go, pkg/bifs/bits.go, the int-preserving part of
-   pkg/bifs/mathlib.go (abs ceiling floor round sgn roundm, ** with a port of Go's math.Pow integer-exponent
-   loop), min/max number kernels and madd/msub/mmul/mexp, plus the INT/FLOAT corner of their disposition
-   matrices.  Ints are Z with explicit wrap64 (Go int64 arithmetic wraps); floats are Coq primitive floats
+   pkg/bifs/mathlib.go (abs ceiling floor round sgn roundm in integer arithmetic, ** = int_power with a port of
+   Go's math.Pow integer-exponent loop as the float fallback), min/max number kernels and madd/msub/mmul/mexp
+   (exact math/big intermediates), plus the INT/FLOAT corner of their disposition matrices.  The model follows the
+   code as repaired by the fix: commits listed in KNOWN_FINDINGS.txt.  Ints are Z with explicit wrap64 (Go int64 arithmetic wraps); floats are Coq primitive floats
    (IEEE-754 binary64, the same hardware operations Go uses).  Go run-time panics (integer division by zero)
    are the explicit outcome RPanic (after the fix: commits of round 1 no kernel can reach it: theorems C07_*_never_panics).  Definitions only. *)
 From Coq Require Import Floats.
@@ -208,12 +209,39 @@ Definition apply_ufun (u : ufun) (x : float) : float :=
   match u with
   | FAbs => PrimFloat.abs x | FCeil => f_ceil x | FFloor => f_floor x | FRound => f_round x | FSgn => f_sgn x
   end.
-(* math_unary_i_i: int64(f(float64(a))) ; math_unary_f_f: f(x) *)
-Definition math_unary_i (u : ufun) (a : Z) : res := RInt (f2i (apply_ufun u (i2f a))).
+(* uint64 magnitude of an int64:  u := uint64(a); if a < 0 { u = -u }   (= |a|, also for -2^63: lemma umag_abs) *)
+Definition umag (a : Z) : Z := if a <? 0 then (- (a mod two64)) mod two64 else a mod two64.
+
+(* BIF_abs/ceil/floor/round/sgn on MT_INT: abs_n_i, identity_i_i, sgn_i_i -- integer arithmetic, no float64 round trip;
+   abs of the minimum int64 overflows to the float 2^63.  math_unary_f_f: f(x) *)
+Definition math_unary_i (u : ufun) (a : Z) : res :=
+  match u with
+  | FAbs => if a =? min_int64 then RFloat (- i2f a)%float else RInt (if a <? 0 then wrap64 (- a) else a)
+  | FCeil | FFloor | FRound => RInt a
+  | FSgn => RInt (if 0 <? a then 1 else if a <? 0 then -1 else 0)
+  end.
 Definition math_unary_f (u : ufun) (x : float) : res := RFloat (apply_ufun u x).
 
 Definition mlr_roundm (x m : float) : float := (f_round (x / m) * m)%float.
-Definition roundm_ii (a b : Z) : res := RInt (f2i (mlr_roundm (i2f a) (i2f b))).
+(* roundm_f_ii: the multiple of m nearest x, halves away from zero, by uint64 magnitudes and bits.Mul64; float
+   round(x/m)*m when m = 0 (NaN) or when the multiple does not fit.  The Go division ux / um would panic for um = 0. *)
+Definition roundm_ii (x m : Z) : res :=
+  if m =? 0 then RFloat (mlr_roundm (i2f x) (i2f m))
+  else
+    let ux := umag x in
+    let um := umag m in
+    if um =? 0 then RPanic
+    else
+      let q := ux / um in
+      let r := ux mod um in
+      let q' := if um - r <=? r then (q + 1) mod two64 else q in
+      let p := q' * um in                                   (* hi, lo := bits.Mul64(quotient, um) *)
+      let hi := p / two64 in
+      let lo := p mod two64 in
+      if x <? 0 then
+        (if (hi =? 0) && (lo <=? two63) then RInt (wrap64 ((- lo) mod two64)) else RFloat (mlr_roundm (i2f x) (i2f m)))
+      else
+        (if (hi =? 0) && (lo <? two63) then RInt (wrap64 lo) else RFloat (mlr_roundm (i2f x) (i2f m))).
 
 (* ------------------------------------------------------------------ math.Pow (go1.25 pure-Go pow; no assembly on amd64) *)
 Definition f_trunc (x : float) : float := if get_sign x then f_ceil x else f_floor x.
@@ -271,11 +299,50 @@ Definition go_pow (x y : float) : option float :=
       let '(a1, ae) := if (y <? 0)%float then ((1 / a1)%float, - ae) else (a1, ae) in
       Some (Z.ldexp a1 ae).
 
-Definition pow_ii (a b : Z) : res :=
+(* int_power (mathlib.go): a**b for b >= 0 in exact integer arithmetic; None = the power does not fit in an int64.
+   The loop multiplies the uint64 magnitude b times (b < 64), giving up as soon as the product exceeds 2^63. *)
+Fixpoint ipow_loop (n : nat) (mag ua : Z) : option Z :=
+  match n with
+  | O => Some mag
+  | S k =>
+      let p := mag * ua in                                  (* hi, lo := bits.Mul64(magnitude, ua) *)
+      if negb (p / two64 =? 0) || (two63 <? p mod two64) then None else ipow_loop k (p mod two64) ua
+  end.
+
+Definition int_power (a b : Z) : option Z :=
+  if b =? 0 then Some 1
+  else if (a =? 0) || (a =? 1) then Some a
+  else if a =? -1 then Some (if Z.land b 1 =? 1 then -1 else 1)
+  else if 64 <=? b then None
+  else
+    match ipow_loop (Z.to_nat b) 1 (umag a) with
+    | None => None
+    | Some mag =>
+        if (a <? 0) && (Z.land b 1 =? 1) then Some (wrap64 ((- mag) mod two64))
+        else if mag =? two63 then None
+        else Some (wrap64 mag)
+    end.
+
+Definition pow_float (a b : Z) : res :=
   match go_pow (i2f a) (i2f b) with
-  | Some fo => let io := f2i fo in if (i2f io =? fo)%float then RInt io else RFloat fo
+  | Some fo => RFloat fo
   | None => RUnmodelled      (* unreachable: an int exponent has no fractional part *)
   end.
+
+(* pow_f_ii: exact int when it fits, else math.Pow on the converted operands; a negative exponent gives a float
+   except for the bases 1 and -1 *)
+Definition pow_ii (a b : Z) : res :=
+  if 0 <=? b then
+    match int_power a b with
+    | Some n => RInt n
+    | None => pow_float a b
+    end
+  else if (a =? 1) || (a =? -1) then
+    match int_power a (Z.land b 1) with
+    | Some n => RInt n
+    | None => RPanic         (* unreachable: Go discards the flag *)
+    end
+  else pow_float a b.
 Definition pow_ff (x y : float) : res :=
   match go_pow x y with Some fo => RFloat fo | None => RUnmodelled end.
 
@@ -285,9 +352,11 @@ Definition mlrmod (a m : Z) : option Z :=
   if m =? 0 then None
   else let r := go_rem a m in Some (if r <? 0 then wrap64 (r + m) else r).
 
-Definition imodadd (a b m : Z) : option Z := mlrmod (wrap64 (a + b)) m.
-Definition imodsub (a b m : Z) : option Z := mlrmod (wrap64 (a - b)) m.
-Definition imodmul (a b m : Z) : option Z := mlrmod (wrap64 (a * b)) m.
+(* mlrmodbig on the exact math/big sum, difference or product: no 64-bit wrap before the reduction
+   (mlrmod above is already a function of an unbounded Z; big.Int.Rem is the truncated remainder Z.rem) *)
+Definition imodadd (a b m : Z) : option Z := mlrmod (a + b) m.
+Definition imodsub (a b m : Z) : option Z := mlrmod (a - b) m.
+Definition imodmul (a b m : Z) : option Z := mlrmod (a * b) m.
 
 Fixpoint mexp_loop (fuel : nat) (u apower c m : Z) : option Z :=
   match fuel with
@@ -295,10 +364,10 @@ Fixpoint mexp_loop (fuel : nat) (u apower c m : Z) : option Z :=
   | S k =>
       if u =? 0 then Some c
       else
-        match (if Z.odd u then mlrmod (wrap64 (c * apower)) m else Some c) with
+        match (if Z.odd u then imodmul c apower m else Some c) with
         | None => None
         | Some c' =>
-            match mlrmod (wrap64 (apower * apower)) m with
+            match imodmul apower apower m with
             | None => None
             | Some ap' => mexp_loop k (u / 2) ap' c' m
             end
